@@ -49,7 +49,7 @@ let () =
        let line = input_line stdin in
        if String.length line > 0 then begin
          Buffer.clear b;
-         (try print b (Model.run (parse line)) with
+         (try print b (Model.dispatch (parse line)) with
           | Stack_overflow -> Buffer.clear b; Buffer.add_string b "(-2)"
           | Failure m -> Buffer.clear b; Buffer.add_string b "(-3)"; prerr_endline m);
          print_string (Buffer.contents b);
